@@ -51,6 +51,7 @@ def strategy_(draw):
         "phi": draw(st.floats(0.01, 0.4)),
         "scale_exp": draw(st.integers(-6, 6)),
         "pi_frac": draw(st.floats(0.3, 1.0)),
+        "pi_offnode": draw(st.one_of(st.just(0.0), st.floats(0.05, 0.95))),
         "pf_frac": draw(st.floats(0.0, 0.95)),
         "container": draw(st.sampled_from(["dict", "dataframe"])),
     }
@@ -122,6 +123,9 @@ def check_case(case) -> Result:
     n = len(p)
     ki = min(n - 1, max(2, int(round(case["pi_frac"] * (n - 1)))))
     p_i = float(p[ki])
+    off = case.get("pi_offnode", 0.0)
+    if off and ki >= 3:
+        p_i = float(p[ki - 1] + off * (p[ki] - p[ki - 1]))  # between rows ki-1 and ki
     p_f = float(p[0] + case["pf_frac"] * (p_i - p[0]))
     res.labels["mobile_water"] = bool(case["Sw"] > case["relperm"]["S_wc"])
     if case["Sw"] > case["relperm"]["S_wc"]:
@@ -154,13 +158,24 @@ def check_case(case) -> Result:
     if not np.all(fin):
         res.bad("C15/scaled-pseudopressure-increasing", f"m-scaled of from_table has non-finite entries at rows {np.flatnonzero(~fin)[:3]}")
         return res
-    res.check("C15/scaled-pseudopressure-derived-from-integral", float(np.max(np.abs(ms * want[ki] - want))), 1e-10 * float(want[-1]), f"from_table: m-scaled * m(p_i) differs from the integral of the documented mobility (p_i={p_i!r});")
+    on_node = p_i == float(p[ki])
+    m_at_pi = float(np.interp(p_i, p, want))
+    res.check("C15/scaled-pseudopressure-derived-from-integral", float(np.max(np.abs(ms * (want[ki] if on_node else 1.0) - (want if on_node else want * ms[-1] / want[-1])))), 1e-10 * float(want[-1]) * (1.0 if on_node else max(1.0, ms[-1] / want[-1])), f"from_table: m-scaled * m(p_i) differs from the integral of the documented mobility (p_i={p_i!r});")
     inc = np.diff(ms)
     if np.any(inc[pos] <= 0):
         j = int(np.flatnonzero(pos & (inc <= 0))[0])
         res.bad("C15/scaled-pseudopressure-increasing", f"from_table: m-scaled does not increase between p={p[j]!r} and {p[j + 1]!r}: {ms[j]!r} -> {ms[j + 1]!r}")
     m_i = float(fp.m_i)
-    res.check("C15/scaled-pseudopressure-is-1-at-p_i", abs(m_i - 1.0), 1e-12, f"from_table: m_i={m_i!r} at the node p_i={p_i!r};")
+    if on_node:
+        res.check("C15/scaled-pseudopressure-is-1-at-p_i", abs(m_i - 1.0), 1e-12, f"from_table: m_i={m_i!r} at the node p_i={p_i!r};")
+    else:
+        # between rows k, k+1 the wrapper multiplies the linear interpolants of m and 1/m: 1 <= m_i <= 1 + (dm)^2/(4 m_k m_k+1)
+        cap = (want[ki] - want[ki - 1]) ** 2 / (4 * want[ki] * want[ki - 1])
+        if not (1.0 - 1e-12 <= m_i <= 1.0 + cap * (1 + 1e-9) + 1e-12):
+            res.bad("C15/scaled-pseudopressure-is-1-at-p_i", f"from_table: m_i={m_i!r} for p_i={p_i!r} between rows {p[ki - 1]!r} and {p[ki]!r}; expected within [1, 1+{cap!r}]")
+        at = float(lib("m_scaled_func", fp.m_scaled_func, p_i))
+        res.check("C15/scaled-pseudopressure-is-1-at-p_i", abs(at - m_i), 1e-13 * abs(m_i), f"from_table: m_scaled_func(p_i)={at!r} vs m_i={m_i!r};")
+    res.labels["p_i_on_node"] = on_node
     mf = float(lib("m_scaled_func", fp.m_scaled_func, p_f))
     if not (0.0 <= mf < 1.0):
         res.bad("C15/frac-face-maps-into-unit-interval", f"from_table: scaled pseudopressure at p_f={p_f!r} is {mf!r} (p_i={p_i!r})")
